@@ -14,6 +14,7 @@ from ..model import Program, walk_own, is_self_attr
 from ..report import AnalysisError, norm_text
 from .. import locsets
 from . import common
+from ..model import key_in
 
 MESH = "hypnotoad/core/mesh.py"
 CONTRA = ["g11", "g22", "g33", "g12", "g13", "g23"]
@@ -28,7 +29,7 @@ class MetricEx(Extractor):
     def choose(self, test, env):
         t = self.text(test)
         for key, val in self.seeds.items():
-            if key in t:
+            if key_in(key, t):
                 neg = isinstance(test, ast.UnaryOp) and isinstance(test.op, ast.Not)
                 return (not val) if neg else val
         return super().choose(test, env)
